@@ -78,16 +78,16 @@ Definition sides_ok (vols : vtable) : Prop :=
 Definition vol_cell_id (k : Z) (v : volume) : Z :=
   match v_origin v with (a, _) :: _ => a | [] => k end.
 
-(* the composition a cell names exists: void -> "m0"; otherwise the material
-   token is the canonical spelling of a card number, the density spelling is a
-   fixed point of normalize_float and some live cell carries this material and
-   density (this is what makes constructCompositionT4 emit the block) *)
+(* the composition a cell names exists: void -> "m0"; otherwise the material number is
+   the number of a card and some live cell carries this material and density (this is
+   what makes constructCompositionT4 emit the block).  No condition on the spelling of
+   the material token any more (fix d8902ad) *)
 Definition cell_named (w : wstate E) (c : cell) : Prop :=
   match c_density c with
-  | None => c_mat c = "0"%string
+  | None => c_matint c = Some 0%Z
   | Some d =>
       exists key m c' cid,
-        In (key, m) (w_mats w) /\ c_mat c = dec_Z key /\
+        In (key, m) (w_mats w) /\ c_matint c = Some key /\
         In (cid, c') (w_cells w) /\ c_live c' = true /\ c_matint c' = Some key /\ c_density c' = Some d
   end.
 
